@@ -485,3 +485,43 @@ def impose_mad(h):
     devs = ['abs(%s - (%s))' % (nm, med) for nm in sorted(env)]
     h.check('median-preserved', '(%s) == (%s)' % (med, med0), **dict(env, **env0))
     h.check('requested-deviation-reached', 's == %s' % _median_expr(devs), s=s, **env)
+
+
+TRIMS = [(0, False), (25, False), (25, True), ((25, 0), False), ((0, 25), True), (50, False), ((50, 25), False)]
+
+
+def _trim_weights(n, k, clip):
+    """textbook: each of the n sorted points carries 1/n of the mass; klo% of the mass is cut from below and khi% from above
+    (a point straddling a cut keeps the part inside); winsorizing moves the cut mass onto the nearest kept point.  Exact
+    rational weights per sorted point (scaled by n)."""
+    from fractions import Fraction as Fr
+    klo, khi = (k, k) if not isinstance(k, tuple) else k
+    lo_cut, hi_cut = Fr(klo, 100), 1 - Fr(khi, 100)
+    w = []
+    for i in range(n):
+        a, b = Fr(i, n), Fr(i + 1, n)
+        w.append(max(Fr(0), min(b, hi_cut) - max(a, lo_cut)))
+    if clip:
+        kept = [i for i, v in enumerate(w) if v > 0]
+        if kept:
+            w[kept[0]] += lo_cut
+            w[kept[-1]] += 1 - hi_cut
+    return [v * n for v in w]
+
+
+@contract('C18/tmean', ['C18'], F + '::tmean', samples=200)
+def tmean(h):
+    """trimmed / winsorized mean of four unweighted points for enumerated trimming fractions: the weighted mean of the sorted
+    points with the textbook trimming weights"""
+    n = 4
+    k, clip = h.choice('trim', TRIMS)
+    x = h.vec('x', n)
+    w = _trim_weights(n, k, clip)
+    tot = sum(w)
+    if tot == 0:
+        return                      # everything trimmed away: documented to give nan (no real number to compare)
+    r = h.call(h.get(F + '::tmean'), x, None, k, clip)
+    env = {'x%d' % i: h.ev('x[%d]' % i, x=x) for i in range(n)}
+    srt = _sorted_expr(sorted(env))
+    num = ' + '.join('(%d/%d) * (%s)' % (v.numerator, v.denominator, e) for v, e in zip(w, srt) if v)
+    h.check('textbook-trimmed-mean', 'r * (%d/%d) == %s' % (tot.numerator, tot.denominator, num), r=r, **env)
